@@ -20,6 +20,8 @@ func runC16(ctx *core.Ctx) {
 	ctx.Rule("U1", "update gating: an update is recorded only when the comparison is not negated, the texts differ, UpdateScripts is set, the command is not cmpenv, and the second file is an archive entry; the recorded value is the actual (first) text under the entry's archive name; on that path the line does not fail; nothing else writes scriptUpdates or scriptFiles", 4)
 	ctx.Rule("U2", "rewrite scope: the script file is written in exactly one place, only when updates exist, as Format of the archive parsed in setup; the only store into that archive is to Data of an entry whose Name equals the update key; nothing stores to Comment, Name or Files", 3)
 	ctx.Rule("U3", "quoting at the update site: the stored body is NeedsQuote-negative or a successfully quoted value (C14.Q4)", 1)
+	needsQuoteExact(ctx, "U6", "U7")
+	ctx.Rule("U8", "entry registration: in setup's loop over the archive's files every iteration stores scriptFiles[path] = entry Name, unconditionally, with the very path the entry's data is written to; cmp resolves its second argument through this map, so the update lands in the entry whose data is on disk (for two entries resolving to one path that is the later one)", 1)
 	ctx.Rule("U4", "a failure while applying updates is reported through T, never by the Fatalf sentinel outside a catch frame (C01.V11)", 1)
 
 	cmp := ctx.Need("U1", "testscript", "(*TestScript).doCmdCmp")
@@ -126,12 +128,75 @@ func runC16(ctx *core.Ctx) {
 				if w.Kind != "store" {
 					continue
 				}
-				okW := w.Fn.Parent() != nil && w.Fn.Parent().Name() == "RunT"
-				if w.Fn.Name() == "RunT" {
-					okW = true
+				// at construction: the struct is a fresh allocation of the storing function, and the
+				// map is made there too, once per allocation (a map made outside, or outside the loop
+				// that allocates, is shared by several scripts: one script's update lands in another's file)
+				al, fresh := w.Base.(*ssa.Alloc)
+				st, _ := w.Instr.(*ssa.Store)
+				okW := fresh && al.Parent() == w.Fn
+				okFresh := false
+				if okW && st != nil {
+					if mm, isMM := st.Val.(*ssa.MakeMap); isMM && mm.Parent() == w.Fn {
+						wg := graph(p, w.Fn)
+						la, inA := innermostLoop(wg, al.Block().Index)
+						lm, inM := innermostLoop(wg, mm.Block().Index)
+						okFresh = inA == inM && (!inA || la.Header == lm.Header)
+					}
 				}
-				ctx.Check(okW, "U1", shortFn(w.Fn)+"#"+fld+"-assign", w.Instr.Pos(), "%s map assigned only at construction", fld)
+				ctx.Check(okW && okFresh, "U1", shortFn(w.Fn)+"#"+fld+"-assign", w.Instr.Pos(), "%s map assigned only at construction (%v), to a map made for that one TestScript (%v)", fld, okW, okFresh)
 			}
+		}
+	}
+	// ---- U8: every archive entry is registered under the path it was written to, later entries winning
+	{
+		sg := graph(p, setup)
+		n := 0
+		sg.Instrs(func(i ssa.Instruction) {
+			mu, ok := i.(*ssa.MapUpdate)
+			if !ok || !isFieldLoad("scriptFiles")(mu.Map) {
+				return
+			}
+			n++
+			why := ""
+			l, inLoop := innermostLoop(sg, mu.Block().Index)
+			if !inLoop {
+				why = "registration is not in the loop over the archive's files"
+			} else {
+				for _, latch := range sg.Preds[l.Header] {
+					if l.Blocks[latch] && !sg.DomBlock(mu.Block().Index, latch) {
+						why = "an entry can be unpacked without being registered (the file on disk is the later entry's, so the registration must be replaced, not kept)"
+					}
+				}
+			}
+			// the key is the path the entry is written to
+			written := false
+			for _, c := range sg.Instrs2Calls(func(c *ssa.Call) bool {
+				cal := c.Call.StaticCallee()
+				return cal != nil && core.InModule(cal) && cal.Name() == "writeFile" || ssax.CalleeName(&c.Call) == "os.WriteFile"
+			}) {
+				if len(c.Call.Args) > 0 && c.Call.Args[0] == mu.Key {
+					written = true
+				}
+			}
+			if why == "" && !written {
+				why = "the registered key is not the path the entry is written to"
+			}
+			fa := false
+			if ld, ok := mu.Value.(*ssa.UnOp); ok {
+				if f, ok := ld.X.(*ssa.FieldAddr); ok && ssax.FieldOf(f) != nil && ssax.FieldOf(f).Name() == "Name" {
+					fa = true
+				}
+			}
+			if f, ok := mu.Value.(*ssa.Field); ok && ssax.FieldOf(f) != nil && ssax.FieldOf(f).Name() == "Name" {
+				fa = true
+			}
+			if why == "" && !fa {
+				why = "the registered value is not the entry's Name"
+			}
+			ctx.Check(why == "", "U8", "testscript.setup#register"+itoa(n), mu.Pos(), "each unpacked entry is registered, unconditionally, as work-dir path -> entry Name %s", why)
+		})
+		if n == 0 {
+			ctx.Bad("U8", "testscript.setup#register", setup.Pos(), "archive entries are never registered")
 		}
 	}
 	// ---- U2
